@@ -314,3 +314,66 @@ pub fn compare(
     }
     None
 }
+
+
+/// Two-player tables whose sizes make a per-deal counter or generation stamp of 8 or 16 bits come round: player 0
+/// holds one combo c0 whose two cards occur nowhere else (not in the other combos of either range, not on the flop,
+/// not among the first deck cards) plus x other combos, player 1 holds y combos, for every factorisation
+/// x*y in {254, 255, 256, 65534, 65535, 65536} (and the same with x+1 combos beside c0). Between two visits of c0
+/// exactly x*y (+-1) other deals are attempted.
+pub fn stamp_wrap_configs(flop: [u8; 3], small_only: bool) -> Vec<Config> {
+    let d = deck_without(&flop);
+    let c0 = Combo::new(d[40], d[41]);
+    let pool: Vec<Combo> = all_combos().into_iter().filter(|c| !flop.contains(&c.0) && !flop.contains(&c.1) && c.0 != c0.0 && c.0 != c0.1 && c.1 != c0.0 && c.1 != c0.1).collect();
+    let mut sizes: Vec<(usize, usize)> = vec![];
+    let targets: &[usize] = if small_only { &[254, 255, 256] } else { &[254, 255, 256, 65534, 65535, 65536] };
+    for &t in targets {
+        for x in 1..=t {
+            if t % x == 0 {
+                let y = t / x;
+                for xx in [x, x + 1] {
+                    if xx <= pool.len() && y <= pool.len() && !sizes.contains(&(xx, y)) {
+                        sizes.push((xx, y));
+                    }
+                }
+            }
+        }
+    }
+    let mut out = vec![];
+    for (x, y) in sizes {
+        let mut r0: Vec<(Combo, f32)> = vec![(c0, 0.5)];
+        r0.extend(pool.iter().take(x).map(|c| (*c, 1.0f32)));
+        let r1: Vec<(Combo, f32)> = pool[pool.len() - y..].iter().map(|c| (*c, 1.0f32)).collect();
+        let label = format!("[{} + first {} other combos][last {} combos]", c0.text(), x, y);
+        out.push(Config { flop, ranges: vec![r0, r1], label });
+    }
+    out
+}
+
+/// compare the real evaluator scoped to the window [from, to) of the position line with M-deals on that window only
+/// (the model is computed for the window's positions alone, so wide ranges stay affordable)
+pub fn check_window(c: &Config, from: usize, to: usize, exact_prob: bool) -> (Option<Value>, u64, u64) {
+    let deck = deck_without(&c.flop);
+    let pl = positions();
+    let mut model: Vec<Vec<(u128, f64)>> = vec![vec![]; 1176];
+    let mut expected = 0u64;
+    for p in from..to {
+        let (t, r) = pl[p];
+        model_position(c, &deck, t, r, &mut model[p]);
+        model[p].sort_by(|a, b| a.0.cmp(&b.0));
+        expected += model[p].len() as u64;
+    }
+    let (tf, rf) = pl[from];
+    let (tt, rt) = if to >= 1176 { (48, 49) } else { pl[to] };
+    let cap = (to - from) as u64 * c.pi().max(1) + 16;
+    let _h = crate::report::horizon("C02", "termination", format!("{} scope=positions {}..{}", c.key(), from, to), json!({"config": c.to_json(), "exact_prob": exact_prob, "window": [from, to]}), cap);
+    match run_impl(c, Some((tf, rf, tt, rt)), 2, cap) {
+        Err(e) => (Some(json!({"panic": e})), 0, expected),
+        Ok(run) => {
+            if !run.stays_exhausted {
+                return (Some(json!({"problem": "next() returned Some after None"})), run.next_calls, expected);
+            }
+            (compare(c, &model, &run, from, to, true, exact_prob), run.next_calls, expected)
+        }
+    }
+}
